@@ -78,7 +78,7 @@ func compareMaps(a, b *NameMap, filter func(e *NameEntry) bool) (same, diff int,
 func checkC12(c *Ctx) {
 	c.SetRule("one feature-composed program (plus two packages with identical declarations) is built in pairs that differ in exactly one input; the name of every package-level object, method, field and interface method is read from the garbled sources handed to the compiler (name-map oracle). " +
 		"With -seed: names must be equal across {+-literals, +-tiny, an edit in another function/package, -tags, [thorough: GOOS/GOARCH]}, must differ for another seed, package-scoped names must differ between two packages declaring the same identifiers while fields of identical struct shapes must agree. " +
-		"Without -seed: package-scoped names of a package must change (>=99% of them; all-equal is the violation) when its source, the garble flags [thorough: GOGARBLE, garble binary, Go version] change; field names must change with the garble flags. " +
+		"Without -seed: package-scoped names of a package must change (>=99% of them; all-equal is the violation) when its source (a new function; a trailing comment that leaves the compiled object byte-identical), the garble flags [thorough: GOGARBLE, garble binary, Go version] change; field names must change with the garble flags. " +
 		"distinct_nontrivial = distinct (pair kind, object key) comparisons of objects obfuscated in both builds.")
 	c.Assume("a 36-bit coincidence between two independently salted names is not a violation (<=1% tolerance on must-change sets)")
 	g := buildGarble("", false)
@@ -98,6 +98,13 @@ func checkC12(c *Ctx) {
 		}
 		dirA := strings.TrimPrefix(libA, base.Module+"/")
 		edited.Files[dirA+"/zqdupfile.go"] += "\n// an unrelated edit\n//go:noinline\nfunc ZqAddedLater() int { return 42 }\n"
+		// comment-only variant: a trailing comment shifts no line, so the compiled object of libA is
+		// byte-identical and only the *inputs* of the build (the action ID) differ
+		commented := &Prog{Module: base.Module, Files: map[string]string{}, LdX: base.LdX, Pkgs: base.Pkgs, Features: base.Features}
+		for k, v := range base.Files {
+			commented.Files[k] = v
+		}
+		commented.Files[dirA+"/zqdupfile.go"] += "// a trailing comment, nothing else\n"
 
 		type spec struct {
 			label string
@@ -106,12 +113,12 @@ func checkC12(c *Ctx) {
 		}
 		specs := []spec{
 			{"S", base, K3}, {"S+literals", base, K23}, {"S+tiny", base, K3t}, {"S+edit", edited, K3}, {"S+tags", base, K3tags}, {"S2", base, K4},
-			{"U", base, K0}, {"U+edit", edited, K0}, {"U+tiny", base, K1}, {"U+literals", base, K2},
+			{"U", base, K0}, {"U+edit", edited, K0}, {"U+comment", commented, K0}, {"U+tiny", base, K1}, {"U+literals", base, K2},
 		}
 		maps := map[string]*NameMap{}
 		var mu sync.Mutex
 		works := map[*Prog]*Work{}
-		for _, p := range []*Prog{base, edited} {
+		for _, p := range []*Prog{base, edited, commented} {
 			works[p] = materialize(p, fmt.Sprintf("c12p%d", pi))
 			defer works[p].cleanup()
 		}
@@ -207,6 +214,7 @@ func checkC12(c *Ctx) {
 		// --- without -seed
 		inA := func(e *NameEntry) bool { return e.Pkg == libA && e.Kind != "field" }
 		mustDiffer("U", "U+edit", "edited-package", inA)
+		mustDiffer("U", "U+comment", "comment-edited-package", inA)
 		mustDiffer("U", "U+tiny", "package-scoped", pkgScoped)
 		mustDiffer("U", "U+tiny", "fields", fieldsOnly)
 		mustDiffer("U", "U+literals", "package-scoped", pkgScoped)
